@@ -11,9 +11,12 @@ for d in sorted(glob.glob(os.path.join(os.path.dirname(__file__), "..", "seeded"
         continue
     m = json.load(open(mp))
     name = os.path.basename(d)
-    runs = m.get("checks_run", {})
+    runs = {c: r for c, r in m.get("checks_run", {}).items() if r}
     det = ", ".join(f"{c} ({r['tier']})" for c, r in runs.items() if r["exit"] == 1) or "-"
     miss = ", ".join(c for c, r in runs.items() if r["exit"] == 0) or ""
+    broken = ", ".join(c for c, r in runs.items() if r["exit"] not in (0, 1))
+    if broken:
+        miss = (miss + " " if miss else "") + f"[exit 2: {broken}]"
     first = ""
     for c, r in runs.items():
         if r["exit"] == 1 and r["lines"]:
@@ -23,7 +26,11 @@ for d in sorted(glob.glob(os.path.join(os.path.dirname(__file__), "..", "seeded"
             break
     conf = m.get("confirmed")
     note = m.get("note", m.get("needs", ""))
-    rows.append((name, m.get("property"), "yes" if conf else ("no" if conf is False else "n/a"), det, miss, first, note[:140]))
+    if m.get("applies_to_head") is False:
+        note = "no longer applies to /repo HEAD (a later fix: commit rewrote these lines); last result kept. " + note
+    if m.get("rebased"):
+        note = "re-made by hand on /repo HEAD after a fix: commit touched the neighbouring lines. " + note
+    rows.append((name, m.get("property"), "yes" if conf else ("no" if conf is False else "n/a"), det, miss, first, note[:200]))
 print("| seeded change | property | confirmed (suite passes, demo fails with / passes without) | detected by | run but silent | first signature | note |")
 print("|---|---|---|---|---|---|---|")
 for r in rows:
